@@ -87,8 +87,6 @@ func (p *polling) onPollRequest(ctx *types.HttpContext) {
 		return
 	}
 
-	p.req.Store(ctx)
-
 	polling_log.Debug("setting request")
 
 	onClose := events.Listener(func(...any) {
@@ -102,6 +100,10 @@ func (p *polling) onPollRequest(ctx *types.HttpContext) {
 	}
 
 	ctx.Once("close", onClose)
+
+	// published only now: a writer goroutine that is still around from the previous
+	// cycle (a close packet racing with a data batch) may pick the request up at once
+	p.req.Store(ctx)
 
 	p.SetWritable(true)
 	p.Emit("ready")
